@@ -5,8 +5,10 @@
 package main
 
 import (
+	"bytes"
 	"encoding/json"
 	"fmt"
+	cocacmd "github.com/modernizing/coca/cmd"
 	"os"
 	"os/exec"
 	"path/filepath"
@@ -26,7 +28,7 @@ type File struct {
 type Input struct {
 	Files   []File   `json:"files"`
 	Filters []string `json:"filters"`
-	Via     string   `json:"via"` // "api" | "cli"
+	Via     string   `json:"via"` // "api" | "cli" | "cmd" (the root command served in-process, after an earlier todo request)
 }
 
 type Case struct {
@@ -150,6 +152,10 @@ func viaCLI(scratch, root string, in Input, o *Obs) {
 		o.Note = short(string(out), 300)
 		return
 	}
+	readReport(scratch, root, o)
+}
+
+func readReport(scratch, root string, o *Obs) {
 	raw, err := os.ReadFile(filepath.Join(scratch, "coca_reporter", "simple-todos.json"))
 	if err != nil {
 		o.Note = "no simple-todos.json: " + err.Error()
@@ -169,6 +175,49 @@ func viaCLI(scratch, root string, in Input, o *Obs) {
 		o.Todos = append(o.Todos, project(root, *t.Filename, *t.Line, *t.Assignee, *t.Message))
 	}
 	o.Wellformed = true
+}
+
+// viaCmd: the root command of package cmd serves two todo requests in ONE process, the way the repository's own cmd
+// tests and any embedding program use it: first a request over the same tree that selects EVERY extension present in
+// it, then the request under observation with its own -e list (always given explicitly). The report of the second
+// request is read from coca_reporter/simple-todos.json. The Reference has no variable an earlier request could leave
+// anything in: files with other extensions are not scanned, whatever was asked before.
+func viaCmd(scratch, root string, in Input, o *Obs) {
+	if err := os.Chdir(scratch); err != nil {
+		panic("harness: chdir: " + err.Error())
+	}
+	all := []string{}
+	seen := map[string]bool{}
+	for _, f := range in.Files {
+		if !seen[f.Ext] && f.Ext != "" && !strings.Contains(f.Ext, ",") {
+			seen[f.Ext] = true
+			all = append(all, f.Ext)
+		}
+	}
+	for _, e := range in.Filters {
+		if !seen[e] && e != "" && !strings.Contains(e, ",") {
+			seen[e] = true
+			all = append(all, e)
+		}
+	}
+	serve := func(exts []string) (bool, string) {
+		return lib.Guard(func() {
+			var buf bytes.Buffer
+			root_ := cocacmd.NewRootCmd(&buf)
+			root_.SetArgs([]string{"todo", "-p", root, "-e", strings.Join(exts, ",")})
+			if err := root_.Execute(); err != nil {
+				panic("command failed: " + err.Error())
+			}
+		})
+	}
+	serve(all) // the earlier request; whatever it does is not the observation
+	os.Remove(filepath.Join(scratch, "coca_reporter", "simple-todos.json"))
+	if p, msg := serve(in.Filters); p {
+		o.Panic = true
+		o.Note = short(msg, 300)
+		return
+	}
+	readReport(scratch, root, o)
 }
 
 func one(raw json.RawMessage) interface{} {
@@ -193,7 +242,9 @@ func one(raw json.RawMessage) interface{} {
 		os.RemoveAll(scratch)
 		os.Exit(2)
 	}
-	if c.Input.Via == "cli" {
+	if c.Input.Via == "cmd" {
+		viaCmd(scratch, root, c.Input, &rec.Observed)
+	} else if c.Input.Via == "cli" {
 		viaCLI(scratch, root, c.Input, &rec.Observed)
 	} else {
 		viaAPI(root, c.Input, &rec.Observed)
